@@ -801,6 +801,24 @@ class World(object):
             return self.ev("skip", why="already live")
         self._build(a)
 
+    def s_reuse(self, a):
+        """The application connects the SAME protocol object again after its connection was lost
+        (makeConnection with a new transport), instead of asking the factory for a new one.  To the
+        monitors it is a new connection of that address.  Only the C14 matrix does this (S175)."""
+        old = self.cur.get(a)
+        if a in self.live or old is None or old.phase != "lost":
+            return self.ev("skip", why="no lost protocol to use again")
+        c = Conn(len(self.conns), a)
+        self.conns.append(c)
+        c.proto = old.proto
+        c.window, c.timeout, c.bandwith = old.window, old.timeout, old.bandwith
+        c.tr = Transport(self, c, self.cfg.model, self.cfg.close_delay)
+        self.live[a] = c
+        self.cur[a] = c
+        self._install_handlers(c)
+        self.ev("build", conn=c.idx, a=a, ondisc=c.has_ondisc, reused=True)
+        c.proto.makeConnection(c.tr)
+
     def s_connect(self, a, clean=True, keepalive=0, level=4, extra=None):
         c = self.live.get(a)
         if c is None:
